@@ -12,6 +12,7 @@ from pyvc.externals_aeon import bn_net_of, net_of
 
 i, j = z3.Int("i"), z3.Int("j")
 key = z3.Int("key")
+OptI = TOpt(TInt)
 LSs = M.LS.sort()
 SigS = M.TSuccSig.sort()
 
@@ -20,6 +21,7 @@ addsucc = M.addsucc3
 nosucc = M.nosucc
 FoldSig = z3.Function("FoldSig", T.Net, LSs, I, SigS)       # signature of attaching l[0..k) each to its percolation
 NormSig = z3.Function("NormSig", T.Net, T.SpaceS, B, SigS)  # signature of a normally expanded node
+SkipOK = z3.Function("SkipOK", T.Net, T.SpaceS, SigS, B)   # successor signature of a skip node: an enumeration of the minimal trap spaces inside it
 CacheOK = z3.Function("CacheOK", T.Net, T.SpaceS, SigS, B, M.OptLS.sort(), M.OptLS.sort(), M.OptLV.sort(), B)
 
 _l, _k, _N = z3.Const("l!f", LSs), z3.Int("k!f"), z3.Const("N!f", T.Net)
@@ -81,11 +83,16 @@ def inv(v, exempt=None, cache=True):
                                                     z3.ForAll([j], z3.Not(v.edge[i][j])))))),
         ("I-norm", z3.ForAll([i], z3.Implies(z3.And(valid(v, i), ex(i), v.expanded[i], z3.Not(v.skipped[i])),
                                              v.succsig[i] == NormSig(N, v.space[i], i == 0)))),
+        ("I-skip", z3.ForAll([i], z3.Implies(z3.And(valid(v, i), ex(i), v.skipped[i]),
+                                             z3.And(v.expanded[i], SkipOK(N, v.space[i], v.succsig[i]))))),
         ("I-depth.nonneg", z3.ForAll([i], z3.Implies(valid(v, i), v.depth[i] >= 0))),
         ("I-depth.edges", z3.ForAll([i, j], z3.Implies(v.edge[i][j], v.depth[j] >= v.depth[i] + 1))),
         ("I-pn", T.Encodes(v.pn, N, z3.K(Name, z3.IntVal(-1)))),
+        # cached percolated Petri nets are exactly the restriction of the global net (cache independence, C16)
         ("I-ppn", z3.ForAll([i], z3.Implies(z3.And(valid(v, i), z3.Not(M.OptPN.is_none(v.ppn[i]))),
-                                            T.Encodes(M.OptPN.val(v.ppn[i]), N, v.space[i])))),
+                                            M.OptPN.val(v.ppn[i]) == T.RestrictPN(v.pn, v.space[i])))),
+        ("I-parent", z3.ForAll([i], z3.Implies(z3.And(valid(v, i), z3.Not(OptI.is_none(v.parent[i]))), z3.And(
+            valid(v, OptI.val(v.parent[i])), T.subspace(v.space[i], v.space[OptI.val(v.parent[i])]))))),
     ]
     if cache:
         cl.append(("I-cache", z3.ForAll([i], z3.Implies(z3.And(valid(v, i), ex(i)), CacheOK(
@@ -149,3 +156,29 @@ def schema_lemmas():
         return M.View(E.HeapObj("SD", M.fresh_fields(None, st, nm)))
     a, b, c = fresh("va"), fresh("vb"), fresh("vc")
     return {"S.ext_transitive": ext_trans(a, b, c)}
+
+
+# ---------------------------------------------------------------------- skip nodes
+
+
+def skipok_intro(N, S, l, sig):
+    """definition (introduction) of SkipOK with witness enumeration l"""
+    return z3.Implies(z3.And(T.IsEnum(l, T.MinTrapSet(N, S)), sig == FoldSig(N, l, M.LS.len(l))), SkipOK(N, S, sig))
+
+
+def min_trap_facts(N, S, l):
+    """L3.min_trap_facts for every element of an enumeration l of MinTrapSet(N,S)"""
+    kq, kq2 = z3.Int("k!q"), z3.Int("k!q2")
+    at = M.LS.at(l)
+    n = M.LS.len(l)
+    rflag = z3.Bool("r!q")
+    return z3.Implies(T.IsEnum(l, T.MinTrapSet(N, S)), z3.And(
+        n >= 1,
+        z3.ForAll([kq], z3.Implies(z3.And(0 <= kq, kq < n), z3.And(
+            T.wf_space(at[kq]), T.dom_within(at[kq], N), T.IsTrap(N, at[kq]), T.Perc(N, at[kq]) == at[kq], T.subspace(at[kq], S),
+            z3.Or(at[kq] == S, T.card(at[kq]) > T.card(S)),
+            T.MinTrapSet(N, S)[at[kq]],
+            T.space_eq_is_identity(at[kq], S),
+            z3.Implies(at[kq] == S, n == 1),
+            NormSig(N, at[kq], True) == nosucc, NormSig(N, at[kq], False) == nosucc))),
+        z3.ForAll([kq, kq2], z3.Implies(z3.And(0 <= kq, kq < kq2, kq2 < n), at[kq] != at[kq2]))))
